@@ -492,6 +492,25 @@ def run_routine(plan, ctx, script=None, strict=False, N_override=None, quiet_ora
                     evm.eval_fixed(wm, data, method=other)
                 except Exception:
                     pass
+        # ... and the object held other dissimilarities a moment ago (values corrected in place after a first look at the
+        # results): what is evaluated now is the object's present content, not anything remembered per object
+        d_ = data.dissimilarities
+        if d_.flags.writeable and d_.size:
+            saved = d_.copy()
+            try:
+                d_[...] = saved[::-1, ::-1] * 1.5 + 0.25
+                for mth in (method, 'cosine'):
+                    try:
+                        evm.eval_fixed(wm, data, method=mth)
+                    except Exception:
+                        pass
+                try:
+                    ncm.boot_noise_ceiling(data, method=method, rdm_descriptor=o['rdm_desc'])
+                except Exception:
+                    pass
+            finally:
+                d_[...] = saved
+            ctx.probe('warm_eval_on_other_content')
     with seam, spies:
         real = {}
         for name, fn in (('bootstrap_sample', bsm.bootstrap_sample), ('bootstrap_sample_rdm', bsm.bootstrap_sample_rdm),
